@@ -1005,3 +1005,75 @@ Proof.
   intros super pts H k Hk. unfold closed_runb in H.
   pose proof (closed_runb_from_ok _ _ _ _ _ H k ltac:(lia)) as R. rewrite Nat.sub_0_r in R. exact R.
 Qed.
+
+(* ================================================================== 11. the cavity contains the triangle around p *)
+(* power of p with respect to the circumcircle in (unnormalised) barycentric coordinates *)
+Lemma power_barycentric : forall a b c p,
+  incircle a b c p * orient a b c ==
+  orient c a p * orient a b p * dist2 b c + orient a b p * orient b c p * dist2 c a
+  + orient b c p * orient c a p * dist2 a b.
+Proof. intros. unfold incircle, orient, dist2. ring. Qed.
+
+Lemma sq_nonneg : forall x : Q, 0 <= x * x.
+Proof.
+  intros x. destruct (Qlt_le_dec x 0) as [H|H].
+  - assert (0 <= (- x) * (- x)) by (apply Qmult_le_0_compat; lra).
+    assert (x * x == (- x) * (- x)) by ring. lra.
+  - apply Qmult_le_0_compat; assumption.
+Qed.
+
+Lemma dist2_nonneg : forall a b, 0 <= dist2 a b.
+Proof.
+  intros. unfold dist2. pose proof (sq_nonneg (fst a - fst b)). pose proof (sq_nonneg (snd a - snd b)). lra.
+Qed.
+
+Lemma dist2_pos : forall a b c, ~ orient a b c == 0 -> 0 < dist2 a b.
+Proof.
+  intros a b c Ho. pose proof (dist2_nonneg a b) as N.
+  destruct (Qlt_le_dec 0 (dist2 a b)) as [L|L]; [exact L|exfalso]. apply Ho.
+  unfold dist2 in *. set (dx := fst a - fst b) in *. set (dy := snd a - snd b) in *.
+  pose proof (sq_nonneg dx) as X. pose proof (sq_nonneg dy) as Y.
+  assert (Zx : dx == 0).
+  { destruct (Qeq_dec dx 0) as [E|E]; [exact E|]. pose proof (sq_pos dx E). lra. }
+  assert (Zy : dy == 0).
+  { destruct (Qeq_dec dy 0) as [E|E]; [exact E|]. pose proof (sq_pos dy E). lra. }
+  unfold orient. assert (E1 : fst b - fst a == - dx) by (unfold dx; ring).
+  assert (E2 : snd b - snd a == - dy) by (unfold dy; ring).
+  rewrite E1, E2, Zx, Zy. ring.
+Qed.
+
+Lemma neg_neg_pos : forall x y, x < 0 -> y < 0 -> 0 < x * y.
+Proof.
+  intros x y Hx Hy. assert (0 < (- x) * (- y)) by (apply Qmult_lt_0_compat; lra).
+  assert (x * y == (- x) * (- y)) by ring. lra.
+Qed.
+
+(* (a) of the classical argument: a point strictly inside a clockwise triangle lies strictly inside
+   its circumcircle, so that triangle is one of the bad ones *)
+Theorem containing_triangle_bad : forall P t p,
+  gorient (resolve P t) < 0 -> Inside (resolve P t) p -> in_circb P t p = true.
+Proof.
+  intros P t p CW Hin. apply in_circb_lt. destruct (resolve P t) as [[a b] c].
+  unfold gorient, gincircle in *. pose proof (orient_sum a b c p) as S.
+  assert (N : orient a b p < 0 /\ orient b c p < 0 /\ orient c a p < 0).
+  { destruct Hin as [[H1 [H2 H3]]|H]; [lra|exact H]. }
+  destruct N as [N3 [N1 N2]].
+  pose proof (power_barycentric a b c p) as E.
+  assert (NZ : ~ orient a b c == 0) by lra.
+  pose proof (dist2_pos a b c NZ) as Dab. pose proof (dist2_nonneg b c) as Dbc. pose proof (dist2_nonneg c a) as Dca.
+  pose proof (neg_neg_pos _ _ N2 N3) as P23. pose proof (neg_neg_pos _ _ N3 N1) as P31.
+  pose proof (neg_neg_pos _ _ N1 N2) as P12.
+  assert (T1 : 0 <= orient c a p * orient a b p * dist2 b c) by (apply Qmult_le_0_compat; lra).
+  assert (T2 : 0 <= orient a b p * orient b c p * dist2 c a) by (apply Qmult_le_0_compat; lra).
+  assert (T3 : 0 < orient b c p * orient c a p * dist2 a b) by (apply Qmult_lt_0_compat; lra).
+  set (I := incircle a b c p) in *. set (T := orient a b c) in *.
+  assert (Pos : 0 < I * T) by lra. clearbody I T.
+  destruct (Qlt_le_dec I 0) as [L|L]; [exact L|exfalso].
+  assert (0 <= I * (- T)) by (apply Qmult_le_0_compat; lra).
+  assert (I * T == - (I * (- T))) by ring. lra.
+Qed.
+
+(* hence the cavity of a point strictly inside some triangle of the triangulation is not empty *)
+Corollary cavity_nonempty : forall P T i t,
+  In t T -> gorient (resolve P t) < 0 -> Inside (resolve P t) (nth i P pzero) -> In t (bad_of P T i).
+Proof. intros P T i t Ht CW Hin. apply bad_of_in. split; [exact Ht|apply containing_triangle_bad; assumption]. Qed.
